@@ -1,6 +1,8 @@
 import EpgVerif.Lemmas.Diff2Lemmas
 import EpgVerif.Lemmas.Cx
 import EpgVerif.Model.DiffSM
+import EpgVerif.Lemmas.ExTotal
+import EpgVerif.Lemmas.OpsLemmas
 /-
   C02 — first-order partials equal the true derivative.
   (1) every coefficient's symbolic derivative `Ex.d` is its derivative (`HasDerivAt`); the
@@ -77,5 +79,185 @@ example : (applyOrder1 (modCar (K := ℤ) (C := ℤ))
     { derive0 := fun x => 2 * x, derive1 := fun _ x => 3 * x, derive2 := fun _ x => x,
       order1 := [("a", [("alpha", 5)]), ("b", [("alpha", 7)])], order2 := [], auto := true, P2 := [] }
     1 [("a", 10)]) = [("a", 35), ("b", 21)] := by decide
+
+/-! ### end to end: what the bookkeeping stores is the derivative of the new state -/
+section endtoend
+open Ex Finset SM
+
+
+/-- component-wise derivative of a phase-state vector depending on one real variable -/
+def PSHasDeriv (f : ℝ → PS ℂ) (f' : PS ℂ) (x0 : ℝ) : Prop :=
+  HasDerivAt (fun x => (f x).fp) f'.fp x0 ∧ HasDerivAt (fun x => (f x).fm) f'.fm x0 ∧
+    HasDerivAt (fun x => (f x).z) f'.z x0
+
+/-- finite sum of phase-state vectors -/
+noncomputable def psSum (N : Nat) (f : Nat → PS ℂ) : PS ℂ :=
+  ⟨∑ j ∈ range N, (f j).fp, ∑ j ∈ range N, (f j).fm, ∑ j ∈ range N, (f j).z⟩
+
+/-- **product + chain rule for a matrix operator** whose entries are coefficient expressions of parameters moving
+    along a curve: `d/dx [M(p(x)) v(x)] = M v' + Σ_j (dp_j/dx) (∂M/∂p_j) v` -/
+theorem mat_step (M : Nat → Nat → Ex) (env : ℝ → Nat → ℂ) (c : Nat → ℂ) (N : Nat) (x0 : ℝ)
+    (henv : ∀ j, HasDerivAt (fun x => env x j) (c j) x0) (hc : ∀ j, N ≤ j → c j = 0)
+    (hcr : ∀ j, (starRingEnd ℂ) (c j) = c j) (hd : ∀ i j, Defined (env x0) (M i j))
+    (v : ℝ → PS ℂ) (v' : PS ℂ) (hv : PSHasDeriv v v' x0) :
+    PSHasDeriv (fun x => PS.mmul (fun i j => eval (env x) (M i j)) (v x))
+      (PS.mmul (fun i j => eval (env x0) (M i j)) v'
+        + psSum N (fun l => PS.smul (c l) (PS.mmul (fun i j => eval (env x0) (d l (M i j))) (v x0)))) x0 := by
+  have hM := fun i j => hasDerivAt_eval_total (M i j) env c N x0 henv hc hcr (hd i j)
+  obtain ⟨h1, h2, h3⟩ := hv
+  have row : ∀ i, HasDerivAt (fun x => eval (env x) (M i 0) * (v x).fp + eval (env x) (M i 1) * (v x).fm + eval (env x) (M i 2) * (v x).z)
+      ((eval (env x0) (M i 0) * v'.fp + eval (env x0) (M i 1) * v'.fm + eval (env x0) (M i 2) * v'.z)
+        + ∑ l ∈ range N, c l * (eval (env x0) (d l (M i 0)) * (v x0).fp + eval (env x0) (d l (M i 1)) * (v x0).fm
+            + eval (env x0) (d l (M i 2)) * (v x0).z)) x0 := by
+    intro i
+    refine ((((hM i 0).mul h1).add ((hM i 1).mul h2)).add ((hM i 2).mul h3)).congr_deriv ?_
+    simp only [mul_add, Finset.sum_add_distrib, Finset.sum_mul]
+    have e : ∀ (a b : ℂ) (l : ℕ), c l * (a * b) = c l * a * b := fun a b l => by ring
+    simp only [e]
+    ring
+  refine ⟨?_, ?_, ?_⟩
+  · simpa [PS.mmul, psSum, PS.smul] using row 0
+  · simpa [PS.mmul, psSum, PS.smul] using row 1
+  · simpa [PS.mmul, psSum, PS.smul] using row 2
+
+
+
+theorem scal_step (A A0 : Nat → Ex) (env : ℝ → Nat → ℂ) (c : Nat → ℂ) (N : Nat) (x0 : ℝ)
+    (henv : ∀ j, HasDerivAt (fun x => env x j) (c j) x0) (hc : ∀ j, N ≤ j → c j = 0)
+    (hcr : ∀ j, (starRingEnd ℂ) (c j) = c j) (hd : ∀ i, Defined (env x0) (A i) ∧ Defined (env x0) (A0 i))
+    (e : PS ℂ) (v : ℝ → PS ℂ) (v' : PS ℂ) (hv : PSHasDeriv v v' x0) :
+    PSHasDeriv (fun x => PS.dmul (fun i => eval (env x) (A i)) (v x) + PS.dmul (fun i => eval (env x) (A0 i)) e)
+      (PS.dmul (fun i => eval (env x0) (A i)) v'
+        + psSum N (fun l => PS.smul (c l)
+            (PS.dmul (fun i => eval (env x0) (d l (A i))) (v x0) + PS.dmul (fun i => eval (env x0) (d l (A0 i))) e))) x0 := by
+  have hA := fun i => hasDerivAt_eval_total (A i) env c N x0 henv hc hcr (hd i).1
+  have hA0 := fun i => hasDerivAt_eval_total (A0 i) env c N x0 henv hc hcr (hd i).2
+  obtain ⟨h1, h2, h3⟩ := hv
+  have comp : ∀ (i : Nat) (w : ℝ → ℂ) (w' ec : ℂ), HasDerivAt w w' x0 →
+      HasDerivAt (fun x => eval (env x) (A i) * w x + eval (env x) (A0 i) * ec)
+        (eval (env x0) (A i) * w' + ∑ l ∈ range N, c l * (eval (env x0) (d l (A i)) * w x0 + eval (env x0) (d l (A0 i)) * ec)) x0 := by
+    intro i w w' ec hw
+    refine (((hA i).mul hw).add ((hA0 i).mul_const ec)).congr_deriv ?_
+    simp only [mul_add, Finset.sum_add_distrib, Finset.sum_mul]
+    have e1 : ∀ (a b : ℂ) (l : ℕ), c l * (a * b) = c l * a * b := fun a b l => by ring
+    simp only [e1]
+    ring
+  refine ⟨?_, ?_, ?_⟩
+  · simpa [PS.dmul, psSum, PS.smul] using comp 0 _ _ e.fp h1
+  · simpa [PS.dmul, psSum, PS.smul] using comp 1 _ _ e.fm h2
+  · simpa [PS.dmul, psSum, PS.smul] using comp 2 _ _ e.z h3
+
+theorem psSum_two (f : Nat → PS ℂ) : psSum 2 f = f 0 + f 1 := by
+  apply PS.ext' <;> simp [psSum, Finset.sum_range_succ]
+
+theorem psSum_four (f : Nat → PS ℂ) : psSum 4 f = f 0 + f 1 + f 2 + f 3 := by
+  apply PS.ext' <;> simp [psSum, Finset.sum_range_succ]
+
+theorem get_zeroEq (s : SM ℂ) (k : ℤ) : (zeroEq s).get k = s.get k := by
+  unfold zeroEq
+  rw [get_mk']
+  by_cases h : inRange s.n k = true
+  · simp [h]
+  · simp only [h]; rw [get_of_not_inRange s k (by simpa using h)]; simp
+
+/-- **C02 end to end, RF pulse**: if the carried partial `J` is the derivative of the state along a variable `x`, and
+    the flip angle and phase depend on `x` with slopes `ca`, `cp` (the declared coefficients), then what
+    `_apply_order1` stores for that variable — `L J + ca·D_alpha s + cp·D_phi s` (`order1_refines_jet`) — is the
+    derivative of the new state along `x`, for every phase state -/
+theorem T_partial_exact (o : Opts) (a p : ℝ → ℝ) (ca cp x0 : ℝ) (ha : HasDerivAt a ca x0) (hp : HasDerivAt p cp x0)
+    (dc : Decl ℂ) (s : ℝ → SM ℂ) (J : SM ℂ) (hJ : ∀ k, PSHasDeriv (fun x => (s x).get k) (J.get k) x0) (k : ℤ) :
+    PSHasDeriv (fun x => (applyOp o (.T ((a x : ℝ) : ℂ) ((p x : ℝ) : ℂ)) (s x)).get k)
+      ((applyOp o (.T ((a x0 : ℝ) : ℂ) ((p x0 : ℝ) : ℂ)) J).get k
+        + (PS.smul (ca : ℂ) (((dopOf o (.T ((a x0 : ℝ) : ℂ) ((p x0 : ℝ) : ℂ)) dc).derive1 "alpha" (s x0)).get k)
+          + PS.smul (cp : ℂ) (((dopOf o (.T ((a x0 : ℝ) : ℂ) ((p x0 : ℝ) : ℂ)) dc).derive1 "phi" (s x0)).get k))) x0 := by
+  let env : ℝ → Nat → ℂ := fun x => envOf [((a x : ℝ) : ℂ), ((p x : ℝ) : ℂ)]
+  let c : Nat → ℂ := fun j => match j with | 0 => (ca : ℂ) | 1 => (cp : ℂ) | _ => 0
+  have henv : ∀ j, HasDerivAt (fun x => env x j) (c j) x0 := by
+    intro j
+    match j with
+    | 0 => simpa [env, envOf, c] using ha.ofReal_comp
+    | 1 => simpa [env, envOf, c] using hp.ofReal_comp
+    | (n + 2) => simpa [env, envOf, c] using hasDerivAt_const x0 (0 : ℂ)
+  have hc : ∀ j, 2 ≤ j → c j = 0 := by
+    intro j hj
+    match j with
+    | 0 => omega
+    | 1 => omega
+    | (n + 2) => rfl
+  have hcr : ∀ j, (starRingEnd ℂ) (c j) = c j := by
+    intro j
+    match j with
+    | 0 => simp [c]
+    | 1 => simp [c]
+    | (n + 2) => simp [c]
+  have h := mat_step Coeff.T.mat env c 2 x0 henv hc hcr (fun i j => rotation_defined _ i j) _ _ (hJ k)
+  rw [psSum_two] at h
+  simp only [applyOp, get_matApply, dopOf, applyWith, get_zeroEq, coeffT, paramEnv]
+  have i0 : paramIdx (K := ℂ) (.T ((a x0 : ℝ) : ℂ) ((p x0 : ℝ) : ℂ)) "alpha" = 0 := by
+    simp [paramIdx, paramNames, List.idxOf, List.findIdx_cons]
+  have i1 : paramIdx (K := ℂ) (.T ((a x0 : ℝ) : ℂ) ((p x0 : ℝ) : ℂ)) "phi" = 1 := by
+    simp [paramIdx, paramNames, List.idxOf, List.findIdx_cons]
+  rw [i0, i1]
+  exact h
+
+/-- **C02 end to end, relaxation / precession**: same statement for `E(tau, T1, T2, g)` with all four parameters
+    moving (slopes `c0..c3`), the recovery term included; requires `T1, T2 ≠ 0` -/
+theorem E_partial_exact (o : Opts) (tau T1 T2 g : ℝ → ℝ) (c0 c1 c2 c3 x0 : ℝ)
+    (h0 : HasDerivAt tau c0 x0) (h1 : HasDerivAt T1 c1 x0) (h2 : HasDerivAt T2 c2 x0) (h3 : HasDerivAt g c3 x0)
+    (hT1 : T1 x0 ≠ 0) (hT2 : T2 x0 ≠ 0)
+    (dc : Decl ℂ) (s : ℝ → SM ℂ) (J : SM ℂ) (eq : ℤ → PS ℂ) (heq : ∀ x k, (s x).geq k = eq k) (hJeq : ∀ k, J.geq k = 0)
+    (hJ : ∀ k, PSHasDeriv (fun x => (s x).get k) (J.get k) x0) (k : ℤ) :
+    let op := fun x : ℝ => Op.E ((tau x : ℝ) : ℂ) ((T1 x : ℝ) : ℂ) ((T2 x : ℝ) : ℂ) ((g x : ℝ) : ℂ)
+    let dop := dopOf o (op x0) dc
+    PSHasDeriv (fun x => (applyOp o (op x) (s x)).get k)
+      ((applyOp o (op x0) J).get k
+        + (PS.smul (c0 : ℂ) ((dop.derive1 "tau" (s x0)).get k) + PS.smul (c1 : ℂ) ((dop.derive1 "T1" (s x0)).get k)
+          + PS.smul (c2 : ℂ) ((dop.derive1 "T2" (s x0)).get k) + PS.smul (c3 : ℂ) ((dop.derive1 "g" (s x0)).get k))) x0 := by
+  intro op dop
+  let env : ℝ → Nat → ℂ := fun x => envOf [((tau x : ℝ) : ℂ), ((T1 x : ℝ) : ℂ), ((T2 x : ℝ) : ℂ), ((g x : ℝ) : ℂ)]
+  let c : Nat → ℂ := fun j => match j with | 0 => (c0 : ℂ) | 1 => (c1 : ℂ) | 2 => (c2 : ℂ) | 3 => (c3 : ℂ) | _ => 0
+  have henv : ∀ j, HasDerivAt (fun x => env x j) (c j) x0 := by
+    intro j
+    match j with
+    | 0 => simpa [env, envOf, c] using h0.ofReal_comp
+    | 1 => simpa [env, envOf, c] using h1.ofReal_comp
+    | 2 => simpa [env, envOf, c] using h2.ofReal_comp
+    | 3 => simpa [env, envOf, c] using h3.ofReal_comp
+    | (n + 4) => simpa [env, envOf, c] using hasDerivAt_const x0 (0 : ℂ)
+  have hc : ∀ j, 4 ≤ j → c j = 0 := by
+    intro j hj
+    match j with
+    | 0 => omega
+    | 1 => omega
+    | 2 => omega
+    | 3 => omega
+    | (n + 4) => rfl
+  have hcr : ∀ j, (starRingEnd ℂ) (c j) = c j := by
+    intro j
+    match j with
+    | 0 => simp [c]
+    | 1 => simp [c]
+    | 2 => simp [c]
+    | 3 => simp [c]
+    | (n + 4) => simp [c]
+  have hdef : ∀ i, Defined (env x0) (Coeff.E.arr i) ∧ Defined (env x0) (Coeff.E.arr0 i) := by
+    intro i
+    apply relaxation_defined
+    · simpa [env, envOf] using hT1
+    · simpa [env, envOf] using hT2
+  have h := scal_step Coeff.E.arr Coeff.E.arr0 env c 4 x0 henv hc hcr hdef (eq k) _ _ (hJ k)
+  rw [psSum_four] at h
+  have i0 : paramIdx (K := ℂ) (op x0) "tau" = 0 := by simp [op, paramIdx, paramNames, List.idxOf, List.findIdx_cons]
+  have i1 : paramIdx (K := ℂ) (op x0) "T1" = 1 := by simp [op, paramIdx, paramNames, List.idxOf, List.findIdx_cons]
+  have i2 : paramIdx (K := ℂ) (op x0) "T2" = 2 := by simp [op, paramIdx, paramNames, List.idxOf, List.findIdx_cons]
+  have i3 : paramIdx (K := ℂ) (op x0) "g" = 3 := by simp [op, paramIdx, paramNames, List.idxOf, List.findIdx_cons]
+  simp only [dop, dopOf, i0, i1, i2, i3]
+  simp only [op, applyOp, applyWith, get_scalApply, get_zeroEq, paramEnv, heq, hJeq]
+  have hz : ∀ a : Nat → ℂ, PS.dmul a (0 : PS ℂ) = 0 := fun a => by apply PS.ext' <;> simp [PS.dmul]
+  simp only [hz, PS.add_zero']
+  exact h
+
+
+end endtoend
 
 end EpgVerif.Props.C02
